@@ -522,7 +522,11 @@ MANIFEST = dict(
          "line feed (version without ':' when no epoch is given) and every architecture of the regenerated RPM_ARCHES, parseNvra of "
          "dir+name-[epoch:]version-release.arch[.rpm] returns exactly those parts (epoch 0 when absent) - no length bound. C13_fixpoint: the "
          "canonical re-formatting parses to the same parts. The model runs the regenerated pattern through the engine model "
-         "(parseNvra = strip .rpm, pyMatch Gen.re_common_RPM_NVRA_RE, groupdict, `or 0`, int()).",
+         "(parseNvra = strip .rpm, pyMatch Gen.re_common_RPM_NVRA_RE, groupdict, `or 0`, int()). C13_parser_exact: on EVERY string "
+         "(no domain hypothesis) parseNvra equals the directly written parser Spec.parseNvraDirect (first line only; directory through "
+         "the last '/' after which the rest still parses; name up to the last '-' after which [epoch:]version-release.arch can still be "
+         "found; epoch = leading digit run + ':' when the rest still splits; version up to the last '-' with a '.' to its right; release "
+         "up to the last '.'), which also describes what Rpms.add does with names outside the documented shape.",
     note="Epochs of more than 4300 digits raise ValueError (CPython int/str limit): theorem C13_parse_epoch_limit, known finding F19. "
          "Unicode decimal digits in the epoch position are accepted by the code (\\d, int()); modelled and compared, not part of the claim.",
     ref="7/C13")
